@@ -78,6 +78,14 @@ def check_lib_line(line):
                     return res
                 res["class"] = "builder-token-opened-by-reference"
         else:
+            # the harness derives Ed25519 / P-384 pool keys with the crates the library also uses: cross-check the derivation
+            from refpaseto import asym as A
+            if ver in (2, 4) and A.ed25519_public(sk[:32]) != pk:
+                res.update(kind="harness-key-pair-inconsistent", detail="Ed25519 public key does not belong to the seed")
+                return res
+            if ver == 3 and A.p384_public(int.from_bytes(sk, "big")) != pk:
+                res.update(kind="harness-key-pair-inconsistent", detail="P-384 public key does not belong to the scalar")
+                return res
             m = R.public_verify(ver, pk, tok, f, i)
             if rec["layer"] == "core":
                 if m != _b(rec["msg"]):
